@@ -156,6 +156,8 @@ def check_case(rec, case: dict) -> None:
         except Exception as e:  # noqa
             if tm.exact(t) < model.TIME_LIMIT_US:
                 dq.add("C01", "time", f"direct query at tick {t} (asked after {case['queries'][:case['queries'].index(t)][-3:]}) raised {harness.exc_str(e)}")
+    if not dq.items and case.get("queries") and (case.get("heavy") or case.get("shared_threads")):
+        repeated_and_shared_use(rec, case, be, tm, dq)
     rec.ev(dq.evals.get("C01", 0))
     for k, v in dq.classes.items():
         rec.cls(k, v)
@@ -164,13 +166,90 @@ def check_case(rec, case: dict) -> None:
         rec.mx("max_excess_over_bare_budget_us", float(dq.max_excess_bare))
     if dq.items:
         rec.violation("time", dq.items[0][2] + (f" (+{len(dq.items) - 1} more)" if len(dq.items) > 1 else ""),
-                      {"text": case["text"], "truth": truth, "queries": case.get("queries", [])}, "C01:time")
+                      {"text": case["text"], "truth": truth, "queries": case.get("queries", []), "heavy": bool(case.get("heavy")),
+                       "shared_threads": bool(case.get("shared_threads"))}, "C01:time")
     elif not (d and mcheck.select(d, ("C01",), extra)):
         if len(truth["tempos"]) >= 2 or case.get("directed"):
             rec.key(case["text"])
     if case.get("directed"):
         rec.cls("directed_half_boundary")
     harness.collect_contracts(rec, None)
+
+
+def repeated_and_shared_use(rec, case, be, tm, dq) -> None:
+    """A tempo map is asked thousands of questions in its life, and an application may ask from several threads: the 1 500th answer
+    and an answer given while other threads are asking the same map are the answers of the first, single-threaded asking (which
+    the exact model has just judged)."""
+    qs = [t for t in case["queries"] if tm.exact(t) < model.TIME_LIMIT_US]
+    if not qs:
+        return
+    first = {}
+    for t in qs:
+        first[t] = (us(be.timestamp_at_tick(t)[0]), be.timestamp_at_tick(t)[1], us(be.timestamp_at_tick_no_optimize_return(t)))
+
+    def ask(t):
+        a = be.timestamp_at_tick(t)
+        return (us(a[0]), a[1], us(be.timestamp_at_tick_no_optimize_return(t)))
+
+    if case.get("heavy"):
+        n = 0
+        for r in range(1600):
+            t = qs[(r * 7 + r // len(qs)) % len(qs)]
+            try:
+                got = ask(t)
+            except Exception as e:  # noqa
+                got = harness.exc_str(e)
+            n += 1
+            if got != first[t]:
+                dq.add("C01", "time", f"direct query at tick {t}, asked for the {r + len(qs) + 1}th time of this tempo map's life, answers {got}; the "
+                       f"first time it answered {first[t]} ((time us, tempo index, time us))")
+                break
+        dq.evals["C01"] = dq.evals.get("C01", 0) + n
+        rec.cls("tempo_map_asked_more_than_1500_questions")
+    if case.get("shared_threads") and not dq.items:
+        import sys
+        import threading
+
+        bad = []
+
+        reps = [6]
+
+        def worker(k):
+            try:
+                for r in range(reps[0]):
+                    for j in range(len(qs)):
+                        t = qs[(j * (k + 1) + r) % len(qs)]
+                        got = ask(t)
+                        if got != first[t]:
+                            bad.append(f"tick {t}: {got} instead of {first[t]}")
+                            return
+            except Exception as e:  # noqa
+                bad.append(f"raised {harness.exc_str(e)}")
+
+        old = sys.getswitchinterval()
+        sys.setswitchinterval(1e-6)
+        try:
+            # first with switches provoked between chartparse statements (harness.yields), then many more rounds on the switch interval alone
+            for injected in (True, False):
+                reps[0] = 6 if injected else 30
+                with harness.yields(0.08 if injected else 0.0, len(case["text"])) as inj:
+                    ths = [threading.Thread(target=worker, args=(k,)) for k in range(4)]
+                    for th in ths:
+                        th.start()
+                    for th in ths:
+                        th.join(120)
+                if injected and inj is not None:
+                    rec.mon("thread_switches_provoked_inside_chartparse_while_sharing_a_tempo_map", inj.switches)
+                if bad or any(th.is_alive() for th in ths):
+                    break
+        finally:
+            sys.setswitchinterval(old)
+        dq.evals["C01"] = dq.evals.get("C01", 0) + 4 * 36 * len(qs)
+        if any(th.is_alive() for th in ths):
+            rec.inconc("shared tempo map: query threads still running after 120 s (watchdog)")
+        elif bad:
+            dq.add("C01", "time", f"one tempo map asked by 4 threads at once: {bad[0]} (single-threaded answer; (time us, tempo index, time us))")
+        rec.cls("tempo_map_shared_by_4_threads")
 
 
 def run_shard(shard, rec, tier, seed):
@@ -219,6 +298,10 @@ def run_shard(shard, rec, tier, seed):
         if mode and case["queries"]:
             case["queries"] = case["queries"] + case["queries"][:1]
         rec.cls(("queries_ascending", "queries_descending", "queries_shuffled", "queries_ascending_then_first_again")[mode])
+        if i % 9 == 3:
+            case["heavy"] = True
+        elif i % 9 == 7:
+            case["shared_threads"] = True
         check_case(rec, case)
         keep.add(case)
         if i < 2:
